@@ -316,7 +316,7 @@ var CollidingShapes = [][][]int{
 	{{1, 11}, {11, 1}}, {{12, 3}, {1, 23}}, {{2, 13}, {21, 3}}, {{1, 32}, {2, 1}}, {{2, 33}, {3, 2}}, {{1, 63}, {3, 1}},
 	{{2, 6}, {3, 4}, {4, 3}}, {{12, 1}, {1, 12}, {6, 2}}, {{2, 3}, {3, 2}}, {{1, 4}, {4, 1}, {2, 2}},
 	{{1, 1, 32}, {1, 2, 1}}, {{2, 1, 3}, {1, 3, 2}, {3, 2, 1}}, {{11}, {1, 1}}, {{32}, {1}}, {{1, 2, 13}, {1, 21, 3}},
-	{{3, 1, 4}, {4, 1, 3}}, {{2, 2, 3}, {3, 2, 2}, {2, 3, 2}}, {{5, 7}, {7, 5}, {35, 1}}, {{10, 1}, {1, 10}, {2, 5}},
+	{{3, 1, 4}, {4, 1, 3}}, {{2, 2, 3}, {3, 2, 2}, {2, 3, 2}}, {{1, 3, 4}, {4, 3, 1}}, {{2, 3, 4}, {4, 3, 2}}, {{1, 11, 2}, {11, 1, 2}}, {{1, 2, 12}, {12, 1, 2}}, {{1, 111}, {111, 1}, {11, 11}}, {{5, 7}, {7, 5}, {35, 1}}, {{10, 1}, {1, 10}, {2, 5}},
 	// shapes of DIFFERENT rank that share a prefix or a suffix (a key built from the first or last few sizes, or one that ignores the rank)
 	{{2, 1, 2, 2, 3}, {2, 1, 2, 2, 5}, {2, 1, 2, 2}}, {{1, 2, 1, 2, 2, 2}, {1, 2, 1, 2, 2, 3}, {1, 2, 1, 2, 2}}, {{2, 3}, {2, 3, 1}, {2, 3, 2}, {1, 2, 3}},
 	{{3}, {3, 1}, {1, 3}, {1}}, {{2, 2}, {64}, {2, 1, 2}}, {{4, 4}, {128}, {4}},
